@@ -230,7 +230,21 @@ def stft_streaming(ctx, R="R-C01-geom-siblings"):
                 nf_eff = S.cond(S.cmp("<", buf_len, spec.GEOM["empty_below"]), S.ZERO, nf_want)
             else:
                 nf_eff = nf_want
-                sc.same(ctx, R, f, loop, "%s finalize frame count" % tag, nf, nf_want)
+                # frames actually emitted: the loop runs only under its path condition, and a non-positive count emits nothing
+                lg = S.subst(ev.guard_of(loop), m) if hasattr(ev, "guard_of") else S.TRUE
+                got_n, want_n = S.cond(lg, S.emax(S.ZERO, nf), S.ZERO), S.emax(S.ZERO, nf_want)
+                r_ = S.compare(got_n, want_n, domain={})
+                if r_["verdict"] != "equal":
+                    r_ = S.compare_on_grid(got_n, want_n, _grid({"buf_len": _grid()["N"], "N": [Fraction(0)]}),
+                                           lambda e: e["S"] <= e["L"] and e["buf_len"] <= 3 * e["L"] + 2)
+                whatn = "%s finalize frame count" % tag
+                if r_["verdict"] in ("equal", "equal-on-grid"):
+                    ctx.ok(R, f.loc(loop), whatn + ("" if r_["verdict"] == "equal" else " (%s; %d points)" % (GRID_NOTE.replace("N in", "buf_len in"), r_["points"])))
+                elif r_["verdict"] == "differ":
+                    ctx.bad(R, f, loop, "%s is %s, expected %s; they differ e.g. at %s (%s vs %s)" % (whatn, S.show(got_n)[:120], S.show(want_n)[:100], r_["witness"],
+                                                                                                      r_["values"][0], r_["values"][1]), whatn, extra={"witness": r_["witness"]})
+                else:
+                    raise AnalysisError("%s: %s" % (R, r_.get("reason")))
             ctx.need(g["pad"] is not None, R, "np.pad not found in finalize")
             ctx.check(g["pad"]["mode"] == S.lift("symmetric"), R, f, st, "%s finalize pads symmetrically, like compute_full" % tag,
                       "finalize pads with mode %s but compute_full with 'symmetric'" % S.show(g["pad"]["mode"]))
@@ -494,13 +508,13 @@ def carry(ctx, R="R-C01-carry"):
                       "compute_chunk can return without updating self.%s; the next chunk would start from stale state" % attr)
     bl = [n for n in f.body_nodes() if isinstance(n, ast.Assign) and any(astq.is_self_attr(t, f.params[0], "_buf_len") for t in n.targets)]
     ctx.check(len(bl) == 1 and astq.text(bl[0].value) == "rem_len", R, f, bl[0] if bl else MISSING(f.node),
-              "the fill count carried to the next chunk is the number of samples not yet covered by an emitted frame")
+              "the fill count carried to the next chunk is the number of samples not yet covered by an emitted frame", structural=True)
     ev = SymEval(prog, f, rename=sc.NP_RENAME, seed={"self._frame_style": "causal"}, inline_props=False).run()
     rem = [n for n in f.body_nodes() if isinstance(n, ast.Assign) and astq.is_name(n.targets[0], "rem_len")]
     ctx.need(len(rem) == 1, R, "rem_len assignment not found")
     v = ev.eval_at(rem[0], rem[0].value)
     ctx.check(astq.eq_text(rem[0].value, "total_len-num_frames*frame_shift"), R, f, rem[0],
-              "remainder = samples available - frames emitted x shift", "remainder is %s" % astq.text(rem[0].value))
+              "remainder = samples available - frames emitted x shift", "remainder is %s" % astq.text(rem[0].value), structural=True)
     nfr = [n for n in f.body_nodes() if isinstance(n, ast.Assign) and astq.is_name(n.targets[0], "num_frames")]
     v = ev.eval_at(nfr[0], nfr[0].value)
     v = S.subst(v, {S.call("len", S.sym("chunk")): S.sym("chunk_len"), S.sym("self._buf_len"): S.sym("buf_len")})
